@@ -333,6 +333,64 @@ def run(seed, tier, lean) -> Result:
                                   genexec.divergence('C07', '_from_dict', f'on the document "{q["label"]}" ({what})', rp))
     return res
 
+def genexec_measure(seed: int, n: int) -> dict:
+    """seeded experiment (tools/genexec_seeded.py): n cases of the quick check on the (mutated) implementation, the hand model
+    (`ser_model`: saved document and loaded state, compared as `check_case` does) and the (regenerated) code (`gen_ser_model`:
+    document of `_to_dict`, exact; `gen_load_doc`: `_from_dict` on the file the implementation wrote, on the oracle's edited
+    file and on three further hand edits).  A case = one model history with its file format."""
+    from .. import genexec
+    rnd = random.Random(seed)
+    st = {'cases': 0, 'impl_ne_hand': 0, 'gen_follows_impl': 0, 'gen_ne_impl': 0, 'impl_crash': 0, 'examples': []}
+    def note(kind, info):
+        if len([e for e in st['examples'] if e[0] == kind]) < 2: st['examples'].append([kind, info])
+    cases = []
+    for i in range(n):
+        r = random.Random(rnd.getrandbits(48))
+        spec = LangGen(r, knobs={'dup_assoc_names': 0.4}).gen()
+        ops = Gen(r, spec, WEIGHTS, names=NAMES).gen(r.randint(4, 30))[:-1]
+        cases.append((spec, ops, ['json', 'yml', 'yaml'][i % 3], r))
+    hand, gen = genexec.run_both([{'op': 'ser_model', 'case': i, 'lang': lang_payload(s), 'ops': o, 'fmt': 'json' if f == 'json' else 'yaml'}
+                                  for i, (s, o, f, r) in enumerate(cases)], 'gen_ser_model',
+                                 rewrite=lambda q: dict(q, meta=meta_of(cases[q['case']][0])))
+    res = Result(); queue = []; per = {}
+    for i, (spec, ops, fmt, r) in enumerate(cases):
+        st['cases'] += 1
+        if 'error' in hand[i] or 'error' in gen[i]:
+            note('driver-error', [hand[i].get('error'), gen[i].get('error')]); continue
+        if 'skip' in gen[i]['model']: continue
+        mo = hand[i]['model']; tap = {}
+        try:
+            v = check_case(spec, ops, fmt, None, r, res, tap)       # the oracle only; what it reached is in `tap`
+            real_doc = tap['m']._to_dict()
+        except Exception as e:
+            st['impl_crash'] += 1; note('impl-crash', f'{type(e).__name__}: {str(e)[:80]}'); continue
+        # hand model = implementation?  (the comparison of `check_case`, independent of the oracle)
+        try: hand_same = canon_doc(mo['doc']) == canon_doc(dict_to_doc(real_doc))
+        except Exception: hand_same = False
+        if hand_same and 'm2' in tap and 'loaded' in mo:
+            im2 = Impl.__new__(Impl); im2.m = tap['m2']
+            try:
+                a, b = canon_obs(Impl.obs(im2)), canon_obs(mo['loaded'])
+                hand_same = all(a[k] == b[k] for k in LOAD_KEYS)
+            except Exception: hand_same = False
+        elif hand_same:
+            hand_same = ('m2' in tap) == ('loaded' in mo) if 'raw' in tap or v is not None else hand_same
+        q0 = len(queue)
+        bad = third_column(i, spec, ops, fmt, tap, gen[i]['model'], random.Random(seed * 1000003 + i), res, queue, count=False)
+        per[i] = {'hand_same': hand_same, 'bad': [b[1] for b in bad], 'oracle': v.fingerprint if v else None}
+    for q, kind, what in (check_loads(queue, cases, res, count=False) if queue else []):
+        per[q['case']]['bad'].append(f'{q["label"]}: {what}')
+    for i, p in per.items():
+        if not p['hand_same']:
+            st['impl_ne_hand'] += 1
+            if not p['bad']:
+                st['gen_follows_impl'] += 1; note('gen=impl!=hand', {'case': i, 'fmt': cases[i][2], 'oracle': p['oracle']})
+        if p['bad']:
+            st['gen_ne_impl'] += 1; note('gen!=impl', {'case': i, 'fmt': cases[i][2], 'what': p['bad'][:2], 'ops': cases[i][1][:12]})
+    st['oracle_violations'] = sum(1 for p in per.values() if p['oracle'])
+    st['documents_compared'] = len(per); st['loads_compared'] = len(queue)
+    return st
+
 def replay(path):
     r = json.load(open(path))
     v = check_case(r['spec'], r['ops'], r['fmt'], None, random.Random(0), Result())
